@@ -57,6 +57,10 @@ WideSameDefs == /\ WA!WideChunks(w, h) = WideChunks(w, h) /\ WA!TotalBytes(w, h)
 WideAgrees == /\ WideChunks(w, h) * 16 = TotalBytes(w, h)
               /\ \A xy \in Pix : LET wi == WideIndex(h, xy[1], xy[2]) IN wi[1] * 65536 + wi[2] = ByteIndex(h, xy[1], xy[2]) /\ wi[2] \in 0..65535
 
+TallAgrees == /\ TallBPC(h \div 8, h % 8) = BytesPerColumn(h) /\ TallChunks(w, h \div 8, h % 8) * 16 = TotalBytes(w, h)
+              /\ LET e == TallDataEnd(w, h \div 8, h % 8) IN e[1] * 65536 + e[2] = DataBytes(w, h)
+              /\ \A xy \in Pix : LET t == TallIndex(h \div 8, h % 8, xy[1], xy[2] \div 8) IN t[1] * 65536 + t[2] = ByteIndex(h, xy[1], xy[2])
+
 \* mode G: for a subset of sizes (all of them would be large), the fresh image and each single-pixel image's changed byte
 EmitThis == w <= (IF Thorough THEN 24 ELSE 9) \/ wh \in RealSizes
 EmitVec == (Emit /\ EmitThis) =>
